@@ -40,6 +40,18 @@ static RFKickMap* make_static(const Par& p, std::shared_ptr<PhaseSpace> in, std:
     return new RFKickMap(in, out, (timeaxis_t)p.revpart, (meshaxis_t)p.V, (frequency_t)p.fRF, (meshaxis_t)p.V0, it, false, nullptr);
 }
 
+// a static RF map whose (phase, amplitude) can be set from outside: the reference for "the kick of step k is the recorded one"
+struct OpenRF : public RFKickMap {
+    using RFKickMap::RFKickMap;
+    void set(meshaxis_t phase, meshaxis_t ampl) { _calcKick(phase, ampl); }
+};
+
+static OpenRF* make_open(const Par& p, std::shared_ptr<PhaseSpace> in, std::shared_ptr<PhaseSpace> out) {
+    auto it = (SourceMap::InterpolationType)p.it;
+    if (p.linear) return new OpenRF(in, out, (meshaxis_t)p.angle, (frequency_t)p.fRF, it, false, nullptr);
+    return new OpenRF(in, out, (timeaxis_t)p.revpart, (meshaxis_t)p.V, (frequency_t)p.fRF, (meshaxis_t)p.V0, it, false, nullptr);
+}
+
 // the kick formula, evaluated by the oracle in double from the (float) inputs the map was given
 static double kick(const Par& p, const PhaseSpace& ps, uint32_t x, double phase, double ampl) {
     auto a0 = ps.getAxis(0), a1 = ps.getAxis(1);
@@ -89,6 +101,8 @@ int main(int argc, char** argv) {
         std::unique_ptr<DynamicRFKickMap> dyn(make_dyn(p, in, out));
         std::unique_ptr<RFKickMap> stat(make_static(p, in, out2));
         const double syncphase = p.linear ? 0.0 : (double)(float)std::asin((float)((meshaxis_t)p.V0 / (meshaxis_t)p.V));
+        std::unique_ptr<OpenRF> ref(make_open(p, in, out2));
+        std::vector<uint64_t> outhash;           // the grid each step produced (the input grid never changes)
         std::vector<std::vector<float>> forces;
         std::vector<std::array<meshaxis_t, 2>> recorded;
         uint32_t napply = longrun ? p.steps : (uint32_t)r.range(1, p.steps);
@@ -96,7 +110,7 @@ int main(int argc, char** argv) {
         bool stop = false;
         for (uint32_t k = 0; k < napply && !stop; k++) {
             dyn->apply();
-            forces.emplace_back(dyn->getForce(), dyn->getForce() + p.n);   // (16 floats per step for the long runs)
+            outhash.push_back(vh::hdata(out->getData(), 4 * nn));
             M.ev("applies");
             if (zero) {
                 stat->apply();
@@ -118,10 +132,25 @@ int main(int argc, char** argv) {
             }
         }
         if (!stop) {
-            if (recorded.size() != forces.size()) {
-                vh::J d; d.s("params", p.descr()).i("applies", (long)forces.size()).i("records", (long)recorded.size());
+            if (recorded.size() != outhash.size()) {
+                vh::J d; d.s("params", p.descr()).i("applies", (long)outhash.size()).i("records", (long)recorded.size());
                 M.violation("C19:record_count", "number of recorded modulation entries differs from the number of executed steps", d.str());
             } else {
+                // (1) what step k did to the grid is what a static RF map set to the recorded (phase, amplitude) of step k does, bit for bit
+                for (size_t k = 0; k < outhash.size() && !stop; k++) {
+                    ref->set(recorded[k][0], recorded[k][1]);
+                    ref->apply();
+                    forces.emplace_back(ref->getForce(), ref->getForce() + p.n);
+                    M.ev("steps_compared_with_recorded_kick");
+                    bool nonzero = false; for (size_t i = 0; i < nn && !nonzero; i++) if (out2->getData()[i] != 0) nonzero = true;
+                    if (nonzero) M.ev("steps_compared_with_nonzero_result");
+                    if (vh::hdata(out2->getData(), 4 * nn) != outhash[k]) {
+                        vh::J d; d.s("params", p.descr()).i("step", (long)k).n("phase", recorded[k][0]).n("ampl", recorded[k][1]);
+                        M.violation(std::string("C19:record_mismatch:") + (p.linear ? "linear" : "sinus"), "grid after step k is not what the RF kick with the (phase, amplitude) recorded for step k produces", d.str());
+                        stop = true;
+                    }
+                }
+                // (2) that kick follows the formula; pure modulation has the configured waveform
                 double fmax = 0;
                 for (auto& f : forces) for (float v : f) fmax = std::max(fmax, std::fabs((double)v));
                 for (size_t k = 0; k < forces.size() && !stop; k++) {
@@ -132,7 +161,7 @@ int main(int argc, char** argv) {
                         M.ev("kicks_compared");
                         if (!M.within("kick_err_over_tol", std::fabs((double)forces[k][x] - want) / tol, 1.0)) {
                             vh::J d; d.s("params", p.descr()).i("step", (long)k).i("x", x).n("applied", forces[k][x]).n("from_record", want).n("phase", ph).n("ampl", am);
-                            M.violation(std::string("C19:record_mismatch:") + (p.linear ? "linear" : "sinus"), "kick applied at step k is not the one given by the (phase, amplitude) recorded for step k", d.str());
+                            M.violation(std::string("C19:kick_formula:") + (p.linear ? "linear" : "sinus"), "kick table for a given (phase, amplitude) is not the RF kick formula evaluated at that phase and amplitude", d.str());
                             stop = true; break;
                         }
                     }
